@@ -37,6 +37,8 @@ type RC struct {
 	// N mirrors the slots inside a pointer-to-struct section with a non-nil default: overlay merges
 	// such a section in place, so it is where a version that shares memory with another one shows
 	N *RCN
+	// a second mirror under an exported name whose first letter is not ASCII (three bytes of UTF-8): exported like N
+	Ṅ *RCN
 }
 
 // RCN: every source writes its value v to S<i> and to N.M<i>
@@ -150,11 +152,16 @@ func (s *rtSource) valueFor(t *dials.Type, v int) reflect.Value {
 	out := reflect.New(t.Type())
 	vv := v
 	out.Elem().Field(s.idx).Set(reflect.ValueOf(&vv))
-	if nf := out.Elem().Field(4); nf.Kind() == reflect.Ptr { // the mirrored section
-		sec := reflect.New(nf.Type().Elem())
-		mv := v
-		sec.Elem().Field(s.idx).Set(reflect.ValueOf(&mv))
-		nf.Set(sec)
+	for _, fi := range []int{4, 5} { // the mirrored sections
+		if fi >= out.Elem().NumField() {
+			continue
+		}
+		if nf := out.Elem().Field(fi); nf.Kind() == reflect.Ptr {
+			sec := reflect.New(nf.Type().Elem())
+			mv := v
+			sec.Elem().Field(s.idx).Set(reflect.ValueOf(&mv))
+			nf.Set(sec)
+		}
 	}
 	return out
 }
@@ -350,9 +357,9 @@ func (r *rtRun) cfgStr(c *RC) string {
 	if c == nil {
 		return "-"
 	}
-	if c.N == nil || c.N.M0 != c.S0 || c.N.M1 != c.S1 || c.N.M2 != c.S2 {
+	if c.N == nil || c.N.M0 != c.S0 || c.N.M1 != c.S1 || c.N.M2 != c.S2 || c.Ṅ == nil || *c.Ṅ != *c.N {
 		// no stack of source values produces this: each source writes the same value to both places
-		r.mirrorBad = append(r.mirrorBad, fmt.Sprintf("step %d: slots %d.%d.%d but nested section %+v", r.stepNo, c.S0, c.S1, c.S2, c.N))
+		r.mirrorBad = append(r.mirrorBad, fmt.Sprintf("step %d: slots %d.%d.%d but nested sections N=%+v Ṅ=%+v", r.stepNo, c.S0, c.S1, c.S2, c.N, c.Ṅ))
 	}
 	s := c.slots(r.nsrc)
 	p := make([]string, len(s))
